@@ -231,6 +231,15 @@ def r3_drop_once(ctx):
                     n_p += 1
                     effs = path_effects(f, path)
                     nulled = any(e[0] == 'w' and e[2] == 'data' and is_null(e[4]) for e in effs)
+                    if not nulled:
+                        # equivalent mechanism: the body itself is released (ManuallyDrop::new(self) / mem::forget(self)), so that
+                        # Body::drop never runs for it on this path — nothing but the rebuilt Box owns the value
+                        rel = [i for i, e in enumerate(effs) if e[0] == 'c' and e[1].name in ('std::mem::ManuallyDrop::new', 'std::mem::forget')
+                               and peel(e[2][0])[0] == 'arg' and peel(e[2][0])[1] == 1]
+                        reb = [i for i, e in enumerate(effs) if e[0] == 'c' and e[1] is fr[0] or (e[0] == 'c' and e[1].b == fr[0].b)]
+                        body_dropped = any(e[0] == 'd' and e[2].split('<')[0] == BODY for e in effs)
+                        between_ok = bool(rel) and bool(reb) and (rel[0] < reb[0] or not any(e[0] == 'c' for e in effs[reb[0] + 1:rel[0]]))
+                        nulled = bool(rel) and not body_dropped and between_ok
                     good = good and nulled
                 ok = good and n_p >= 1
             ctx.check(ok, 'take-before-rebox', 'try_cast replaces Body.data by null before rebuilding the Box (the value cannot be dropped twice)', fr[0].where(), show(t)[:200])
